@@ -14,6 +14,8 @@ CONSTANTS
  PublishOnlyLatest = TRUE
  HoldVfsAcrossApply = TRUE
  SnapshotInTask = FALSE
+ CancelledAnsweredOk = FALSE
+ AnsFree = FALSE
  PollWhileWaiting = FALSE
  PreFixF9 = FALSE
  ThirdPartyFatal = FALSE
